@@ -40,8 +40,8 @@ func init() {
 		},
 		Shards:      shards(8, 16),
 		Run:         runC18,
-		MinEvals:    floor(40000, 1500000),
-		MinDistinct: floor(20000, 500000),
+		MinEvals:    floor(40000, 450000),
+		MinDistinct: floor(20000, 400000),
 		RequiredCells: func(string) []string {
 			cells := []string{"chunk/one-byte", "chunk/half", "chunk/data-err", "chunk/random", "car/legit-boundary-cut", "write/final-flush-fault", "write/bytes-equal-buffered", "write/cid-of-written-bytes"}
 			for _, api := range []string{"token.FromSealedReader", "delegation.FromSealedReader", "invocation.FromSealedReader", "token.FromDagCborReader", "token.FromDagJsonReader", "token.DecodeReader", "container.FromCborReader", "container.FromCarReader", "container.FromCborBase64Reader", "container.FromCarBase64Reader"} {
